@@ -94,6 +94,7 @@ func (a *OutboundTopicAliases) Set(topic string) (uint16, bool) {
 	}
 
 	i := atomic.LoadUint32(&a.cursor)
+	verifPoint("alias.afterCursor") // schedule point inside the allocator's critical section (verif build tag)
 	if i+1 > uint32(a.maximum) {
 		// if i+1 > math.MaxUint16 {
 		return 0, false
